@@ -2,14 +2,23 @@ package common
 
 import (
 	"encoding/binary"
+	"errors"
 	"io"
 	"strings"
 )
 
-// WriteString writes a string preceded by its length (up to 256 bytes)
+// ErrStringTooLong is returned by WriteString for a string whose length does not
+// fit in the one-byte length prefix.
+var ErrStringTooLong = errors.New("string longer than 255 bytes")
+
+// WriteString writes a string preceded by its length (up to 255 bytes)
 // TODO(baumanl): make this better/make sure they work with updates to reliable tubes
 func WriteString(s string, w io.Writer) (int64, error) {
 	var written int64
+	if len(s) > 255 {
+		// byte(len(s)) would wrap and mis-frame everything that follows
+		return 0, ErrStringTooLong
+	}
 	// write length of string as one byte
 	n, err := w.Write([]byte{byte(len(s))})
 	written += int64(n)
